@@ -149,9 +149,13 @@ class Ref:
                     out.append("n0" if align == 8 else 0)
                     continue
                 inner = [l for l in leaves.values() if (l[0] == optpath or l[0].startswith(optpath + ".")) and l[1] != "flag"]
+                # options nested inside the payload struct are present as well: their is_ok bytes are part of the image
+                nested_flags = [l for l in leaves.values() if l[1] == "flag" and l[0].startswith(optpath + ".")]
                 flag_off = leaves[optpath + "?"][3]
                 base = flag_off - size
                 img = bytearray(size)
+                for l in nested_flags:
+                    img[l[3] - base] = 1
                 for path, kind, t, off, w in inner:
                     v = tokens.get(path)
                     if kind == "enum":
@@ -344,18 +348,19 @@ def compare(mod, ref, data, abi="legacy"):
         # ---- argument list ----
         if res.get("args") is not None and abi == "legacy":
             descr = ref.args_legacy(sname)
-            runs = [("distinct non-zero leaf values", res["args"], res["tokens"], True)]
+            runs = [("distinct non-zero leaf values", res["args"], res["tokens"], True, res.get("images") or {})]
             if res.get("args_zero"):
-                runs.append(("all-zero / false leaf values", res["args_zero"]["args"], res["args_zero"]["tokens"], True))
+                runs.append(("all-zero / false leaf values", res["args_zero"]["args"], res["args_zero"]["tokens"], True, res["args_zero"].get("images") or {}))
             if res.get("args_absent"):
-                runs.append(("absent optional fields", res["args_absent"]["args"], res["args_absent"]["tokens"], False))
-            for what, got, toks, present in runs:
+                runs.append(("absent optional fields", res["args_absent"]["args"], res["args_absent"]["tokens"], False, res["args_absent"].get("images") or {}))
+            for what, got, toks, present, imgs_run in runs:
                 if got is None:
                     out.append((sname, "argument list (%s): the export was not called" % what))
                     continue
                 exp_vals = ref.eval_args(sname, descr, toks, present, mod)
                 # the receive buffer pointer is passed as an extra argument; drop pointers the probe handed out
-                got_wo = [g for g in got if not (isinstance(g, int) and not isinstance(g, bool) and g >= 1024 and g % 256 == 0)]
+                # (exactly those: a leaf value such as the bit pattern of an f32 may well be a multiple of 256)
+                got_wo = [g for g in got if not (isinstance(g, int) and not isinstance(g, bool) and str(g) in imgs_run)]
                 norm = lambda xs: [(1 if x is True else 0 if x is False else x) for x in xs]
                 if norm(got_wo) != norm(exp_vals):
                     shape = ["pad" if d[0] == "pad" else d[1] + ("[%d]" % d[2] if d[0] == "chunk" else "") for d in descr]
